@@ -362,6 +362,7 @@ impl ReceiverLinkD {
 //@@ end
 
 //@@ fn file=fe2o3-amqp/src/link/receiver_link.rs impl=`impl<T> ReceiverLink<T>` name=dispose_consecutive
+//@@ attr #[verifier::loop_isolation(false)]
 //@@ shape loops=for,for
 //@@ selfmut
 //@@ ret Result<(), DispositionError>
@@ -398,6 +399,7 @@ impl ReceiverLinkD {
 //@@ end
 
 //@@ fn file=fe2o3-amqp/src/link/receiver_link.rs impl=`~impl<Tar>endpoint::ReceiverLinkforReceiverLink<Tar>` name=dispose_all
+//@@ attr #[verifier::loop_isolation(false)]
 //@@ shape loops=for
 //@@ selfmut
 //@@ ret Result<(), DispositionError>
@@ -663,6 +665,7 @@ pub fn slice_window2<T>(s: &[T], w: usize) -> (r: &[T])
 //@@ end
 
 //@@ fn file=fe2o3-amqp/src/link/receiver_link.rs name=consecutive_chunk_indices
+//@@ attr #[verifier::loop_isolation(false)]
 //@@ shape loops=while
 //@@ attr #[verifier::spinoff_prover]
 //@@ subst `delivery_infos .windows(2) .enumerate() .filter_map(|(__E1, __E2)| __E3) .collect()` => `{ let mut __fm_out: Vec<usize> = Vec::new(); let mut __fm_w: usize = 0; while __fm_w < delivery_infos.len().saturating_sub(1) { let __E1 = __fm_w; let __E2 = slice_window2(delivery_infos, __fm_w); let __fm_o: Option<usize> = __E3; if let Some(__fm_v) = __fm_o { __fm_out.push(__fm_v); } __fm_w += 1; } proof { reveal(rchunk_positions); lemma_rcp_upto(delivery_infos@, __fm_w as int); } __fm_out }` rule=R34
